@@ -130,5 +130,5 @@ func evalWitnesses(c *core.Ctx, ck *Check) {
 	}
 }
 
-// C19Child is replaced by the real implementation in c19.go.
-var C19Child = func(args []string) int { return 2 }
+// C19Child is set by c19.go.
+var C19Child func(args []string) int
